@@ -37,6 +37,11 @@ def check_calc_deltas(res, E):
     def m_serial(E_, st, frame, callee, argvals, dest_ty):
         return {(): notify_serial}
 
+    notify_session, state_session = z3.Int("notify_session"), z3.Int("state_session")
+
+    def m_session(E_, st, frame, callee, argvals, dest_ty):
+        return {(): notify_session}
+
     def m_last(E_, st, frame, callee, argvals, dest_ty):
         v = argvals[0]
         out = {("disc",): z3.If(v[("n",)] > 0, z3.IntVal(1), z3.IntVal(0))}
@@ -97,10 +102,11 @@ def check_calc_deltas(res, E):
 
     def pre(E_, st, frame):
         st.mem[(("o", statep.id), "deref", ("f", st_fields.index("serial")))] = state_serial
+        st.mem[(("o", statep.id), "deref", ("f", st_fields.index("session")))] = state_session
         # max_delta_count: any field read of type usize from the collector config becomes this variable
 
     paths = E.explore(body, max_visits=N + 2, nomut=[r"."], arg_values={"_3": {(): statep}}, pre=pre, max_paths=200000, models={
-        r"NotificationFile::deltas$": m_deltas, r"NotificationFile::serial$": m_serial,
+        r"NotificationFile::deltas$": m_deltas, r"NotificationFile::serial$": m_serial, r"NotificationFile::session_id$": m_session,
         r"<impl \[DeltaInfo\]>::last$": m_last, r"<impl \[DeltaInfo\]>::first$": m_first,
         r"DeltaInfo::serial$": m_dserial, r"Option::<&DeltaInfo>::map::<u64": m_map,
         r"^<\[DeltaInfo\] as (std::ops::)?Index<(std::ops::)?RangeFrom<usize>>>::index$": m_index,
@@ -115,6 +121,15 @@ def check_calc_deltas(res, E):
         if d is None or not E.feasible(p.cond, d == 0):
             continue
         n_ok += 1
+        ms = E.model(p.cond, z3.And(d == 0, notify_session != state_session))
+        if ms is not None and not any(v["key"] == "mir:calc-deltas:other-session-accepted" for v in res.violations):
+            fn = mprop.write_cex(res, "calc_deltas_other_session_%d" % i, p, E,
+                                 "calc_deltas returns Ok although the notification's session id differs from the local state's "
+                                 "(local serial %s, notified serial %s): deltas of another session would be applied, or the copy "
+                                 "declared current" % (ms.eval(state_serial, True), ms.eval(notify_serial, True)), ms)
+            res.violation("mir:calc-deltas:other-session-accepted",
+                          "calc_deltas accepts a notification of a different session (no snapshot fallback): the local copy of the "
+                          "old session is reported as up to date / updated by deltas of the new one", fn)
         s2 = p.ret.get((("v", "Ok"), ("f", 0), "s"))
         n2 = p.ret.get((("v", "Ok"), ("f", 0), "n"))
         if s2 is None:
